@@ -196,12 +196,13 @@ Fixpoint burst (n : nat) (r0 : rid) : list event :=
      4 exits 0 / 5 exits 1 while something it started still holds its stdout and stderr,
      6 writes more than a pipe buffer to stdout and stderr and exits 0,
      7 is fed more than a pipe buffer on stdin, never reads it, exits 0,
-     8 kills itself (SIGKILL) *)
+     8 kills itself (SIGKILL),
+     13 as 6 but stderr first, then stdout (the two pipes are drained concurrently: neither order may block) *)
 (* 3, 9..12 = `AsyncCommand::spawn()` of something that cannot be started: 3 no such file (ENOENT), 9 not executable
    (EACCES), 10 a directory, 11 a script whose interpreter does not exist, 12 an executable somebody holds open for
    writing (ETXTBSY).  In all of them `spawn()` returns the error in the poll in which it got the token. *)
 Definition kind_spawn_fails (k : N) : bool := (k =? 3) || ((9 <=? k) && (k <=? 12)).
-Definition kind_ok (k : N) : bool := (k =? 1) || (k =? 4) || (k =? 6) || (k =? 7).
+Definition kind_ok (k : N) : bool := (k =? 1) || (k =? 4) || (k =? 6) || (k =? 7) || (k =? 13).
 Definition kind_leaves_pipes_open (k : N) : bool := (k =? 4) || (k =? 5).
 Inductive sop :=
 | OReq (r : rid) (kind : N)  (* create the future and poll it once *)
@@ -327,3 +328,64 @@ Definition client_new (ncpus : N) (mf : makeflags) : client := client_new_num nc
    those are empty *)
 Definition granted_at_once (c : client) (m : N) : N := if c_limited c then N.min m (c_tokens c) else m.
 Definition empty_acquireds (c : client) (m : N) : N := if c_limited c then 0 else m.
+
+(* ---------- start-up of the server process: descriptors (src/commands.rs InternalStartServer: `daemonize()` then
+   `server::start_server()`; util::daemonize calls `discard_inherited_jobserver()`, start_server calls `Client::new()`) ----------
+
+   `discard_inherited_jobserver()` closes the two descriptors R,W announced by --jobserver-auth=R,W /
+   --jobserver-fds=R,W in the environment IF BOTH ARE OPEN in this process (fcntl F_GETFD), whatever they are.
+   GNU make <= 4.3 announces its pipe to every recipe but passes the descriptors only to recursive ones: for an
+   ordinary recipe R,W (3,4) are closed at exec.  `Client::new()` creates a pipe: the kernel hands out the two
+   lowest free descriptors.  Hence the order matters: a discard AFTER the pool exists closes the pool's own pipe
+   when the announced numbers were free. *)
+Inductive sact := SDiscard | SNewClient.
+
+Record fdst := mkfd {
+  open_fds : list N;          (* descriptors open in the server process *)
+  pool_fds : option (N * N);  (* read / write end of the token pipe of the client the server uses *)
+  pool_alive : bool           (* ... and both are still that pipe *)
+}.
+
+Fixpoint lowest_free (fuel : nat) (n : N) (o : list N) : N :=
+  match fuel with
+  | O => n
+  | S f => if mem n o then lowest_free f (n + 1) o else n
+  end.
+Definition alloc_fd (o : list N) : N := lowest_free (S (length o)) 0 o.
+
+Definition sstep (announced : option (N * N)) (s : fdst) (a : sact) : fdst :=
+  match a with
+  | SNewClient =>
+      let r := alloc_fd (open_fds s) in
+      let w := alloc_fd (r :: open_fds s) in
+      mkfd (r :: w :: open_fds s) (Some (r, w)) true
+  | SDiscard =>
+      match announced with
+      | Some (r, w) =>
+          if mem r (open_fds s) && mem w (open_fds s) then
+            let hits := match pool_fds s with
+                        | Some (pr, pw) => (pr =? r) || (pr =? w) || (pw =? r) || (pw =? w)
+                        | None => false
+                        end in
+            mkfd (del w (del r (open_fds s))) (pool_fds s) (pool_alive s && negb hits)
+          else s
+      | None => s
+      end
+  end.
+
+Definition startup (announced : option (N * N)) (open0 : list N) (acts : list sact) : fdst :=
+  fold_left (sstep announced) acts (mkfd open0 None false).
+
+(* the decidable shape of a good start-up: every discard comes before the (first) client *)
+Fixpoint only_new (l : list sact) : bool :=
+  match l with
+  | [] => true
+  | SNewClient :: t => only_new t
+  | SDiscard :: _ => false
+  end.
+Fixpoint startup_ok (l : list sact) : bool :=
+  match l with
+  | [] => false
+  | SDiscard :: t => startup_ok t
+  | SNewClient :: t => only_new t
+  end.
